@@ -228,7 +228,7 @@ def packLifeStep (e : Handle) (isCreate : Bool) (acc : PackLife) (ck : Cmd × Na
   | .remove _ c =>
     if acc.p.final.contains c then
       let next := closedMask acc.w.deps (Mask.erase acc.p.final c)
-      if next.contains c then acc
+      if next.contains c then { acc with p := { acc.p with final := next } }
       else { acc with p := { acc.p with final := next, replaced := Mask.insert acc.p.replaced c,
                                         src := acc.p.src.filter (·.1 != c) },
                       srcIdx := acc.srcIdx.filter (·.1 != c) }
@@ -289,7 +289,7 @@ def WM.packEvents (w : WM) (t off : Nat) (pack : List Cmd) : List Event :=
     match start with
     | none => []
     | some (w1, initial0, sh) =>
-      let initial := closedMask w1.deps initial0
+      let initial := if isCreate then closedMask w1.deps initial0 else initial0
       let body := if isCreate then rest.zipIdx (off + 1) else pack.zipIdx off
       packFinishEvents t e isCreate initial sh
         (body.foldl (packLifeStep info e isCreate) { w := w1, p := { final := initial } })
